@@ -76,9 +76,15 @@ type c17Mon struct {
 	ref        map[uint64]uint64
 	sinceReset uint // Additions increments seen since last reset
 	ownChanged uint // Adds since the last reset / growth that changed the table, counted from the table itself (small tables)
-	cs         c17Case
-	trace      []string
-	bad        bool
+	// reference for "ages predictably" (small tables): how many table-changing additions the current sample period
+	// is to last. A new or grown table starts a full period; after a reset the period is shortened by what the
+	// halved counters still stand for, (SampleSize - odd/4)/2, with odd = number of odd counters just before the
+	// halving - known to the monitor up to the four counters the triggering addition touched, hence periodTol.
+	period    int // -1 = unknown
+	periodTol int
+	cs        c17Case
+	trace     []string
+	bad       bool
 }
 
 func (m *c17Mon) note(f string, a ...any) {
@@ -183,14 +189,37 @@ func (m *c17Mon) add(h uint64) {
 		before = append([]uint64(nil), s.Table...)
 	}
 	var reset bool
+	var tblBefore []uint64
+	if small {
+		tblBefore = before
+	}
 	m.safely(fmt.Sprintf("Add(%#x)", h), func() { reset = s.Add(h) })
 	m.note("Add(%#x)->%v additions=%d", h, reset, s.Additions)
+	if small && reset && len(tblBefore) == len(s.Table) && m.period >= 0 {
+		got := int(m.ownChanged) + 1 // the addition that triggered the reset changed the table too
+		if got < m.period-m.periodTol || got > m.period+m.periodTol {
+			m.violate("reset-off-period", fmt.Sprintf("an aging reset came after %d table-changing additions; the sample period that began at the previous reset / growth was to last %d (+-%d) (SampleSize %d, the sketch's own count said %d before this addition)", got, m.period, m.periodTol, s.SampleSize, addsBefore))
+		}
+	}
+	if small && reset && len(tblBefore) == len(s.Table) {
+		odd := 0
+		for _, w := range tblBefore {
+			odd += bits.OnesCount64(w & 0x1111111111111111)
+		}
+		m.period = int(s.SampleSize) - (int(s.SampleSize)-odd/4)/2
+		m.periodTol = 2
+		m.r.Count("resets_checked_against_the_reference_period", 1)
+	}
 	if small && !reset && len(before) == len(s.Table) {
 		for i := range before {
 			if before[i] != s.Table[i] {
 				m.ownChanged++
 				break
 			}
+		}
+		if m.period >= 0 && int(m.ownChanged) > m.period+m.periodTol {
+			m.violate("reset-overdue/relative-to-the-carried-count", fmt.Sprintf("%d additions have changed the table since the last reset / growth; the sample period was to last %d (+-%d) (SampleSize %d; the sketch's own count says %d)", m.ownChanged, m.period, m.periodTol, s.SampleSize, s.Additions))
+			m.period = -1
 		}
 		if m.ownChanged >= s.SampleSize {
 			m.violate("reset-overdue", fmt.Sprintf("%d additions have changed the table since the last reset (sample period %d) and no reset has happened; the sketch's own count says %d", m.ownChanged, s.SampleSize, s.Additions))
@@ -249,6 +278,7 @@ func (m *c17Mon) ensure(size uint) {
 		m.ref = map[uint64]uint64{}
 		m.sinceReset = 0
 		m.ownChanged = 0
+		m.period, m.periodTol = int(m.s.SampleSize), 0
 		// a grown table starts a new epoch and must be empty
 		for i, w := range m.s.Table {
 			if w != 0 {
@@ -382,7 +412,7 @@ func runC17(r *Run) {
 		j := jobs[i]
 		rng := r.Rng(int64(i))
 		s := internal.NewCountMinSketch()
-		m := &c17Mon{r: r, s: s, ref: map[uint64]uint64{}}
+		m := &c17Mon{r: r, s: s, ref: map[uint64]uint64{}, period: int(s.SampleSize)}
 		m.cs = c17Case{Size: j.size, Pattern: j.pattern, Mix: j.mix}
 		m.ensure(j.size)
 		// enough operations to force several resets on this table
